@@ -154,14 +154,23 @@ def run_class(item):
             import specs.isa as _isa
 
             _isa.PAGE_ASSUME = domain != "edge"  # page-edge classes: the spec's "same page" assumption is exactly what is lifted
+            undocumented_same_reg = False
+            same_reg = False
             try:
                 specs = X.build_specs(v, N, opcode)
-            except SpecUnsupported:
-                res["out_of_domain"] = res.get("out_of_domain", 0) + 1
-                continue
+            except SpecUnsupported as e_:
+                if "is also the data register" in str(e_) and os.environ.get("VERIF_C06_SAMEREG", "1") == "1":
+                    # MV r,[r++] / MV r,[--r] / MV [r++],r ...: the documentation leaves the order open, but the two cores must still
+                    # agree with each other; compared without spec assumptions (addresses in range only)
+                    specs = []
+                    undocumented_same_reg = True
+                    same_reg = True
+                else:
+                    res["out_of_domain"] = res.get("out_of_domain", 0) + 1
+                    continue
             finally:
                 _isa.PAGE_ASSUME = True
-            dom = [z3.Or(*[z3.And(*st_.assume) if st_.assume else z3.BoolVal(True) for st_ in specs])]
+            dom = [z3.Or(*[z3.And(*st_.assume) if st_.assume else z3.BoolVal(True) for st_ in specs])] if specs else []
             for (kind_, a_, val_) in v["log"]:
                 if not isinstance(a_, int):
                     dom.append(z3.ULT(core.term_of(a_, 64), z3.BitVecVal(0x100100, 64)))
@@ -174,6 +183,7 @@ def run_class(item):
             pcons = list(p.constraints) + [dterm]
         else:
             pcons = list(p.constraints)
+            same_reg = False
         code = ([prefix] if prefix is not None else []) + [opcode] + [core.term_of(b, 8) for b in v["obytes"]] + [0] * 8
         code = [c if isinstance(c, int) else z3.simplify(c) for c in code]
         code = [c.as_long() if (not isinstance(c, int) and z3.is_bv_value(c)) else c for c in code]
@@ -253,7 +263,7 @@ def run_class(item):
                 payload = {"property": "C06", "kind": "parity", "key": f"{mn}|{'+'.join(failed)}", "pc": X.PC0, "code": cb, "len": n,
                            "regs": {k: ev(core.term_of(val, 24)) for k, val in v["pre"].items()}, "mem_default": default,
                            "mem": {str(a): b for a, b in entries.items()}, "failed": failed, "mnemonic": mn}
-                pfx = ("pre" if prefix is not None else "nopre") + ("/full-domain" if domain == "full" else "")
+                pfx = ("pre" if prefix is not None else "nopre") + ("/full-domain" if domain == "full" else "") + ("/same-register" if same_reg else "")
                 kinds = "+".join(sorted(set(failed)))
                 res["cex"].append({"key": f"{pfx}|{mn} {opcode:02X}|{kinds}", "summary": f"{key} {mn}: {kinds}", "payload": payload})
             elif unknown:
